@@ -45,6 +45,7 @@ def run(chk):
     formulas(chk, cg, "cgauleg", "esutil/integrate/cgauleg_pywrap.c")
     wrapper(chk, repo, cg)
     memo(chk, repo)
+    cached_tables_readonly(chk, repo)
     integrators(chk, repo)
     shapes(chk, repo)
 
@@ -221,6 +222,23 @@ def wrapper(chk, repo, cg):
     rets = [x for x in walk_no_nested(fi.node) if isinstance(x, ast.Return)]
     asg = [x for x in walk_no_nested(fi.node) if isinstance(x, ast.Assign) and isinstance(x.value, ast.Call) and dotted_name(x.value.func) == "_cgauleg.cgauleg"]
     chk.ob("R17.4", "gauleg::returns-x-w", len(rets) == 1 and norm(rets[0].value) == "(x, w)" and len(asg) == 1 and norm(asg[0].targets[0]) == "(x, w)", fi.where(), "the (abscissae, weights) pair is returned as produced")
+
+
+def cached_tables_readonly(chk, repo):
+    """R17.5r: the node/weight tables kept on the object are never modified by the integrators (a later call would silently use the
+    rescaled grid of an earlier one); decided by the alias/effect analysis with each table as a caller-owned root"""
+    from vcheck import effects
+    from checks.C15 import analyse_attr_root
+    eng = effects.Effects(repo, {})
+    for cls, tables, methods in (("QGauss", ("self.xxi", "self.wii"), ("integrate_func", "integrate_data", "integrate")),
+                                 ("QGauss2", ("self.xgrid", "self.ygrid", "self.wgrid"), ("integrate_func",))):
+        for m in methods:
+            fi = repo.func(IU + "%s.%s" % (cls, m))
+            for attr in tables:
+                s = analyse_attr_root(eng, fi, attr)
+                sites = [st for st in s.mut.get(attr, []) if st.kind in ("data", "meta")]
+                chk.ob("R17.5r", "%s.%s::%s-not-modified" % (cls, m, attr), not sites, sites[0].where() if sites else fi.where(),
+                       "the cached table %s is only read%s" % (attr, "" if not sites else ": " + sites[0].describe()))
 
 
 def memo(chk, repo):
